@@ -433,10 +433,17 @@ func (c *ClientConn) Send(request Request) error {
 		stream:  stream,
 		conn:    c,
 	})
-	if err == nil {
-		atomic.AddInt32(&c.inflight, 1)
+	if err != nil {
+		// The request never reached the write queue. Take it back out of the pending requests so that this connection's
+		// closing notification doesn't deliver it as well. If the notification has already claimed it then that is
+		// the request's outcome and it must not also be reported as a failed send.
+		if c.pending.loadAndDelete(stream) == nil {
+			return nil
+		}
+		return err
 	}
-	return err
+	atomic.AddInt32(&c.inflight, 1)
+	return nil
 }
 
 func (c *ClientConn) SendAndReceive(ctx context.Context, f *frame.Frame) (*frame.Frame, error) {
